@@ -29,6 +29,15 @@ CLAIMS = {
             "roles; system_time refuses a clock earlier than the recorded one and is the only reader "
             "of the wall clock. Structural necessary conditions; clock behaviour itself not decided.",
             "DESIGN.md §4 C04"),
+    "C05": ("MIR must-pass-through + value-origin + file-name template analysis over load_snapshot/"
+            "load_targets/load_delegations, cache.rs name builders, io.rs stream adapters, fetch.rs",
+            "Decides on every path: a fetched snapshot/targets/delegated document is returned, persisted "
+            "or attached only via the edge version == pinned version (pin = parent.meta.get(file), "
+            "missing pin is an error); with pinned hashes the parsed bytes come from "
+            "fetch_sha256(pinned sha256, pinned length|limit); VERSION-prefixed names exactly under "
+            "consistent_snapshot with VERSION from the pin; adapters pass data only below the bound / "
+            "on digest equality. Structural; SHA-256 and byte-level equality not decided.",
+            "DESIGN.md §4 C05"),
 }
 
 NOT_YET = {}
